@@ -273,62 +273,84 @@ Qed.
     and the mixed materialisation of the threshold example are [dir_rel]-related for
     K := the three keys of the example; the theorem (not computation) then equates the runs *)
 Module ExRel.
-  Definition ka := Ex.J (Ex.key "0a" "aa").
-  Definition kb := Ex.J (Ex.key "0b" "bb").
-  Definition kc := Ex.J (Ex.key "0c" "cc").
+  Definition ka := Eval vm_compute in Ex.J (Ex.key "0a" "aa").
+  Definition kb := Eval vm_compute in Ex.J (Ex.key "0b" "bb").
+  Definition kc := Eval vm_compute in Ex.J (Ex.key "0c" "cc").
   Definition K (key : json) : Prop := key = ka \/ key = kb \/ key = kc.
-  Definition root := Ex.mb Ex.layout_body (Ex.one "0a" "aa").
-  Definition fs1 := Ex.files Ex.mb Ex.mb (Ex.one "0c" "cc").
-  Definition fs2 := Ex.files Ex.mb Ex.dsse (Ex.one "0c" "cc").
+  Definition get_ok (r : res metadata) : metadata := match r with Ok m => m | Err _ => Envelope [] [] [] None end.
+  Definition j_root := Eval vm_compute in Ex.mb Ex.layout_body (Ex.one "0a" "aa").
+  Definition j_b := Eval vm_compute in Ex.mb Ex.link_body (Ex.one "0b" "bb").
+  Definition j_c := Eval vm_compute in Ex.mb Ex.link_body (Ex.one "0c" "cc").
+  Definition j_c' := Eval vm_compute in Ex.dsse Ex.link_body (Ex.one "0c" "cc").
+  Definition m_root := Eval vm_compute in get_ok (from_dict Ex.b64 parse_json j_root).
+  Definition m_b := Eval vm_compute in get_ok (from_dict Ex.b64 parse_json j_b).
+  Definition m_c := Eval vm_compute in get_ok (from_dict Ex.b64 parse_json j_c).
+  Definition m_c' := Eval vm_compute in get_ok (from_dict Ex.b64 parse_json j_c').
+  Definition n_b := Eval vm_compute in Ex.s2l "build.0b.link".
+  Definition n_c := Eval vm_compute in Ex.s2l "build.0c.link".
+  Definition fs1 := [(n_b, FJson j_b); (n_c, FJson j_c)].
+  Definition fs2 := [(n_b, FJson j_b); (n_c, FJson j_c')].
+  Definition keys := Eval vm_compute in Ex.owner_keys.
+  Definition a := mkArgs m_root keys None (JStr []).
 End ExRel.
 
-Example C14_example_related :
-  forall md, from_dict Ex.b64 parse_json ExRel.root = Ok md ->
-  dir_rel Ex.b64 parse_json Ex.sig_ok 0 ExRel.K (Dir ExRel.fs1 []) (Dir ExRel.fs2 []) /\
-  args_rel Ex.sig_ok 0 ExRel.K (mkArgs md Ex.owner_keys None (JStr [])) (mkArgs md Ex.owner_keys None (JStr [])) /\
-  Ex.V (Dir ExRel.fs1 []) (mkArgs md Ex.owner_keys None (JStr [])) =
-  Ex.V (Dir ExRel.fs2 []) (mkArgs md Ex.owner_keys None (JStr [])).
+Example C14_ex_same_files :
+  ExRel.fs1 = Ex.files Ex.mb Ex.mb (Ex.one "0c" "cc") /\ ExRel.fs2 = Ex.files Ex.mb Ex.dsse (Ex.one "0c" "cc") /\
+  ExRel.j_root = Ex.mb Ex.layout_body (Ex.one "0a" "aa") /\ ExRel.keys = Ex.owner_keys.
+Proof. vm_compute. repeat split; reflexivity. Qed.
+Example C14_ex_load_root : from_dict Ex.b64 parse_json ExRel.j_root = Ok ExRel.m_root.
+Proof. vm_compute. reflexivity. Qed.
+Example C14_ex_load_b : from_dict Ex.b64 parse_json ExRel.j_b = Ok ExRel.m_b.
+Proof. vm_compute. reflexivity. Qed.
+Example C14_ex_load_c : from_dict Ex.b64 parse_json ExRel.j_c = Ok ExRel.m_c.
+Proof. vm_compute. reflexivity. Qed.
+Example C14_ex_load_c' : from_dict Ex.b64 parse_json ExRel.j_c' = Ok ExRel.m_c'.
+Proof. vm_compute. reflexivity. Qed.
+Example C14_ex_formats_differ :
+  (exists s p, ExRel.m_c = Metablock s p) /\ (exists b t s p, ExRel.m_c' = Envelope b t s p).
+Proof. split; repeat eexists. Qed.
+Example C14_ex_c_related : md_rel Ex.sig_ok 0 ExRel.K ExRel.m_c ExRel.m_c'.
 Proof.
-  intros md Hmd.
+  split; [vm_compute; reflexivity|].
+  intros key [Hk|[Hk|Hk]]; rewrite Hk; vm_compute; reflexivity.
+Qed.
+Example C14_ex_links : (exists lk, get_payload ExRel.m_b = Ok (PLink lk)) /\ (exists lk, get_payload ExRel.m_c = Ok (PLink lk)).
+Proof. split; eexists; vm_compute; reflexivity. Qed.
+Example C14_ex_root_keys : exists ly, get_payload ExRel.m_root = Ok (PLayout ly) /\
+  ly_keys ly = [(Ex.s2l "0b", ExRel.kb); (Ex.s2l "0c", ExRel.kc)] /\ ExRel.keys = JDict [(Ex.s2l "0a", ExRel.ka)] /\
+  subkey_ids ExRel.kb = [] /\ subkey_ids ExRel.kc = [].
+Proof. eexists. vm_compute. repeat split; reflexivity. Qed.
+
+Example C14_example_related :
+  dir_rel Ex.b64 parse_json Ex.sig_ok 0 ExRel.K (Dir ExRel.fs1 []) (Dir ExRel.fs2 []) /\
+  args_rel Ex.sig_ok 0 ExRel.K ExRel.a ExRel.a /\
+  Ex.V (Dir ExRel.fs1 []) ExRel.a = Ex.V (Dir ExRel.fs2 []) ExRel.a.
+Proof.
   assert (Hlink : forall j j' m m',
             from_dict Ex.b64 parse_json j = Ok m -> from_dict Ex.b64 parse_json j' = Ok m' ->
             (exists lk, get_payload m = Ok (PLink lk)) ->
             md_rel Ex.sig_ok 0 ExRel.K m m' ->
             file_rel Ex.b64 parse_json Ex.sig_ok 0 ExRel.K (FJson j) (FJson j')).
-  { intros j j' m m' H1 H2 [lk Hl] Hr. unfold file_rel. rewrite H1, H2. simpl. split; [exact Hr|].
+  { intros j j' m m' H1 H2 [lk Hl] Hr. unfold file_rel. rewrite H1, H2. split; [exact Hr|].
     intros ly Hly. rewrite Hl in Hly. discriminate. }
   assert (Hd : dir_rel Ex.b64 parse_json Ex.sig_ok 0 ExRel.K (Dir ExRel.fs1 []) (Dir ExRel.fs2 [])).
-  { constructor; [|constructor]. apply files_rel_Forall2.
-    constructor; [|constructor; [|constructor]]; (split; [reflexivity|]); cbn [snd].
-    - destruct (from_dict Ex.b64 parse_json (Ex.mb Ex.link_body (Ex.one "0b" "bb"))) as [m|e] eqn:E1;
-        [|vm_compute in E1; discriminate].
-      eapply Hlink; [exact E1 | exact E1 | | apply md_rel_refl].
-      vm_compute in E1. inversion E1; subst m. eexists. reflexivity.
-    - destruct (from_dict Ex.b64 parse_json (Ex.mb Ex.link_body (Ex.one "0c" "cc"))) as [m|e] eqn:E1;
-        [|vm_compute in E1; discriminate].
-      destruct (from_dict Ex.b64 parse_json (Ex.dsse Ex.link_body (Ex.one "0c" "cc"))) as [m'|e] eqn:E2;
-        [|vm_compute in E2; discriminate].
-      eapply Hlink; [exact E1 | exact E2 | |].
-      + vm_compute in E1. inversion E1; subst m. eexists. reflexivity.
-      + vm_compute in E1. inversion E1; subst m. vm_compute in E2. inversion E2; subst m'.
-        split; [vm_compute; reflexivity|].
-        intros key [Hk|[Hk|Hk]]; subst key; vm_compute; reflexivity. }
-  assert (Ha : args_rel Ex.sig_ok 0 ExRel.K (mkArgs md Ex.owner_keys None (JStr [])) (mkArgs md Ex.owner_keys None (JStr []))).
-  { split; [split; [apply md_rel_refl|]|].
-    - intros ly Hly. cbn [a_md] in Hly. vm_compute in Hmd. inversion Hmd; subst md. vm_compute in Hly.
-      inversion Hly; subst ly. cbn [ly_keys]. apply keyset_ok_of_Forall.
-      constructor; [|constructor; [|constructor]]; cbn [snd]; (split; [|reflexivity]).
+  { constructor; [|constructor]. apply files_rel_Forall2. unfold ExRel.fs1, ExRel.fs2.
+    constructor; [|constructor; [|constructor]]; (split; [reflexivity|]); unfold snd.
+    - exact (Hlink _ _ _ _ C14_ex_load_b C14_ex_load_b (proj1 C14_ex_links) (md_rel_refl _ _ _ _)).
+    - exact (Hlink _ _ _ _ C14_ex_load_c C14_ex_load_c' (proj2 C14_ex_links) C14_ex_c_related). }
+  assert (Ha : args_rel Ex.sig_ok 0 ExRel.K ExRel.a ExRel.a).
+  { destruct C14_ex_root_keys as [ly [Hly [Hkeys [Hvk [Hsb Hsc]]]]].
+    unfold ExRel.a. split; [split; [apply md_rel_refl|]|].
+    - intros ly' Hly'. unfold a_md in Hly'. rewrite Hly in Hly'. inversion Hly'; subst ly'. rewrite Hkeys.
+      apply keyset_ok_of_Forall.
+      constructor; [|constructor; [|constructor]]; unfold snd; (split; [|assumption]).
       + right; left; reflexivity.
       + right; right; reflexivity.
-    - cbn [a_keys a_params a_step_name]. split; [|auto].
-      change Ex.owner_keys with (JDict [(Ex.s2l "0a", ExRel.ka)]).
+    - unfold a_keys, a_params, a_step_name. split; [|auto]. rewrite Hvk.
       apply keys_in_K_of_Forall. constructor; [left; reflexivity | constructor]. }
   split; [exact Hd|]. split; [exact Ha|].
   exact (C14_verify_payload_only Ex.b64 parse_json Ex.sig_ok 0 Ex.now_us Ex.exec ExRel.K _ _ _ _ Hd Ha).
 Qed.
-
-Example C14_example_related_root_loads : exists md, from_dict Ex.b64 parse_json ExRel.root = Ok md.
-Proof. vm_compute. eexists. reflexivity. Qed.
 
 (** *** Finding D14a.  The statement of C14_sigcheck_equiv WITHOUT [first_match_decides] is false:
     signatures [bad, good] by one key — the traditional container checks only the first matching
